@@ -39,6 +39,19 @@ def int_enum_value(src, name, what):
     return int(m.group(1))
 
 
+def block_paren(src, start):
+    assert src[start] == "("
+    depth = 0
+    for i in range(start, len(src)):
+        if src[i] == "(":
+            depth += 1
+        elif src[i] == ")":
+            depth -= 1
+            if depth == 0:
+                return src[start + 1:i]
+    raise GenError("unbalanced parentheses")
+
+
 def build():
     defs = []
     base = strip_comments(read("src/dnssec/validator/base.rs"))
@@ -206,6 +219,22 @@ def build():
              dn, "ProtoRrsig::new parameter order")
     one(r"Rrsig::new\(\s*self\.type_covered,\s*self\.algorithm,\s*self\.labels,\s*self\.original_ttl,\s*self\.expiration,\s*self\.inception,\s*self\.key_tag,\s*self\.signer_name,\s*signature,\s*\)", dn, "ProtoRrsig::into_rrsig pass-through")
     one(r"Rrsig::new_unchecked\(\s*type_covered,\s*algorithm,\s*labels,\s*original_ttl,\s*expiration,\s*inception,\s*key_tag,\s*signer_name,\s*signature,\s*\)", dn, "Rrsig::new pass-through")
+
+    # every conversion of an Rrsig (new, convert_octets, flatten, OctetsFrom, parse, scan) ends in a positional
+    # call of new_unchecked / new: the seven fixed fields must be passed in declaration order
+    order = ["type_covered", "algorithm", "labels", "original_ttl", "expiration", "inception", "key_tag"]
+    calls = 0
+    for m in re.finditer(r"Rrsig::(?:new_unchecked|new)\(", dn):
+        args = block_paren(dn, m.end() - 1)
+        names = re.findall(r"\b(?:self\.|source\.)?(type_covered|algorithm|labels|original_ttl|expiration|inception|key_tag)\b", args)
+        if len(names) < 7:
+            continue          # a test or an example with literal values
+        if names[:7] != order:
+            raise GenError("Rrsig constructor call passes its fields as %s" % ", ".join(names[:7]))
+        calls += 1
+    if calls < 5:
+        raise GenError("expected at least 5 positional Rrsig constructor calls, found %d" % calls)
+    defs.append(("rrsig_constructor_calls_in_field_order", "N", "%d%%N" % calls))
 
     # ---- the signer ----------------------------------------------------------
     sg = strip_comments(read("src/dnssec/sign/signatures/rrsigs.rs"))
